@@ -50,6 +50,13 @@ pub fn strings(width: usize) -> Vec<(String, String)> {
             out.push((format!("no-page-lead {:x} x{n}", lead.chars().next().unwrap() as u32), format!("{lead}{}", "a".repeat(n))));
         }
     }
+    for n in 1..=top {
+        // characters outside the BMP: 4 bytes of UTF-8 each, one '?' each on the wire
+        out.push((format!("no-page-astral x{n}"), "\u{1f600}".repeat(n)));
+    }
+    for n in 1..=(top / 2 + 2) {
+        out.push((format!("no-page-astral-mixed x{n}"), "\u{1f600}a".repeat(n)));
+    }
     // white space and control characters are ordinary text: nothing may trim or normalise them
     for t in [" ", "  ", " a", "a ", " a ", "a  b", "\t", "a\tb", "a\u{7f}", "\u{1}x", "x\r\n", "~{}[]"] {
         out.push((format!("ascii-odd {t:?}"), t.to_string()));
